@@ -26,9 +26,8 @@ import (
 
 var bigKinds = []string{"ldap-big", "ipp"}
 
-// hotOf is filled by the big generators: the cut points inside the length-bearing
-// header bytes of the dialog's units (relative to the stream). Keyed by nothing: it
-// belongs to the dialog generated last (genTCPHot returns it).
+// hotDialog: a generated dialog plus the cut points (stream offsets) inside the
+// length-bearing header bytes of its units.
 type hotDialog struct {
 	d   svc.Dialog
 	hot []int
@@ -561,7 +560,7 @@ func min(a, b int) int {
 // or more (length form 0x81 / 0x82: a long community, nine or more variable bindings)
 // is cut to 131 / 132 bytes, fails to decode and produces no event at all.
 // Reproducer: c04/pending/snmp-long-form-length.replay.json
-var pendingFindings = map[string]bool{"C04-snmp-long-form-length": true}
+var pendingFindings = map[string]bool{}
 
 const kfSNMPLong = "C04-snmp-long-form-length"
 
